@@ -149,8 +149,10 @@ func (p c11) Run(c *core.Ctx) {
 				for _, n := range prog.Nodes {
 					bad.VisitedNodes[n.Title] = 7
 				}
-				if err := pr.pair.R.DR.RestoreAt(bad); err == nil {
+				if err := pr.pair.R.RestoreAt(bad); err == nil {
 					return "RestoreAt accepted a snapshot naming an unknown node"
+				} else if pe, ok := err.(*mon.PanicErr); ok {
+					return "RestoreAt panicked on a snapshot naming an unknown node: " + pe.Text
 				}
 				after := pr.pair.R.DR.Snapshot()
 				for k, w := range m.Visits {
@@ -197,7 +199,7 @@ func (p c11) Run(c *core.Ctx) {
 					sv = saved{snap: hand, check: check}
 				}
 				handedOver := mon.CopySnap(sv.snap)
-				if err := pr.pair.R.DR.RestoreAt(sv.snap); err != nil {
+				if err := pr.pair.R.RestoreAt(sv.snap); err != nil {
 					return "RestoreAt of the runner's own earlier snapshot failed: " + err.Error()
 				}
 				// the snapshot is the host's value: restoring from it does not change it (zero counts included)
